@@ -15,10 +15,10 @@
 enum { F_BUFFER_END, F_EXACT_FIT, F_SIZE_ZERO, F_HUGE_REQUEST, F_NULL_POINTER };
 static const char *const fault_names[] = { "buffer_end_inside_item", "exact_fit", "buffer_size_zero",
 					   "huge_request", "null_pointer", NULL };
-enum { P_AFTER_OVERFLOW, P_ZEROFILL, P_ROUNDTRIP, P_ZERO_LEN_BYTES, P_FIT_ALL };
+enum { P_AFTER_OVERFLOW, P_ZEROFILL, P_ROUNDTRIP, P_ZERO_LEN_BYTES, P_FIT_ALL, P_NULL_BUFFER };
 static const char *const probe_names[] = { "op_after_overflow", "zero_filled_output",
 					   "round_trip_phase", "zero_length_byte_run",
-					   "everything_fitted", NULL };
+					   "everything_fitted", "null_buffer_of_size_zero", NULL };
 
 enum { K_BYTES, K_S16LE, K_U16BE, K_U16LE, K_S32LE, K_U32LE, K_NPACK };
 enum { U_BYTES, U_CHAR, U_S8, U_U8, U_U16LE, U_U32LE, U_NUNPACK };
@@ -137,6 +137,12 @@ static void run(void)
 		sim_fault(F_SIZE_ZERO);
 
 	uint8_t *buf = sim_alloc(B);		/* exact size: one byte beyond is a redzone */
+	if (B == 0 && sim_choose(2)) {
+		/* a sizing pass in the style of snprintf(NULL, 0): no buffer at all; the counters must
+		 * still count every requested byte */
+		buf = NULL;
+		sim_probe(P_NULL_BUFFER);
+	}
 	static uint8_t model[4096 + 64];
 	uint64_t cur = 0;
 	rf_pack_t pk;
@@ -169,6 +175,9 @@ static void run(void)
 			case K_U32LE: rf_pack_u32le(PKP, A(o->val)); once(1, "rf_pack_u32le"); break;
 			}
 			sim_ops(1);
+			if (src && memcmp(src, o->bytes, o->sz > sizeof(o->bytes) ? sizeof(o->bytes) : o->sz))
+				sim_fail(NULL, "SOURCE_MODIFIED", "rf_pack_bytes of %u bytes (%s) changed the caller's source array",
+					 o->sz, fits ? "fits" : "does not fit");
 			if (fits) {
 				uint8_t *m = model + cur;
 				uint32_t v = o->val;
@@ -186,7 +195,7 @@ static void run(void)
 			cur += o->sz;
 			sim_ev("pack", o->kind, o->sz, fits);
 			sim_check_sanitizer();
-			if (memcmp(buf, model, B)) {
+			if (B && memcmp(buf, model, B)) {
 				uint32_t d = 0;
 				while (buf[d] == model[d])
 					d++;
